@@ -3,6 +3,7 @@ package main
 import (
 	"fmt"
 	"go/ast"
+	"go/constant"
 	"go/token"
 	"go/types"
 	"os"
@@ -95,15 +96,15 @@ func loadWorld(repo, tags string) (*World, error) {
 
 func (w *World) describe() map[string]interface{} {
 	return map[string]interface{}{
-		"root_packages":      len(w.Roots),
-		"packages_total":     w.NumPkgs,
-		"ssa_functions":      len(w.AllFuncs),
-		"repo_functions":     len(w.RepoFuncs),
-		"build_tags":         w.Tags,
-		"load_seconds":       w.LoadSeconds,
-		"callgraph_seconds":  w.cgSeconds,
-		"callgraph_built":    w.cg != nil,
-		"excluded_backends":  "kvautobus bigtable gcloud clustered lowmem (do not type-check at this commit)",
+		"root_packages":     len(w.Roots),
+		"packages_total":    w.NumPkgs,
+		"ssa_functions":     len(w.AllFuncs),
+		"repo_functions":    len(w.RepoFuncs),
+		"build_tags":        w.Tags,
+		"load_seconds":      w.LoadSeconds,
+		"callgraph_seconds": w.cgSeconds,
+		"callgraph_built":   w.cg != nil,
+		"excluded_backends": "kvautobus bigtable gcloud clustered lowmem (do not type-check at this commit)",
 	}
 }
 
@@ -354,4 +355,17 @@ func (w *World) fposFile(f *ssa.Function) string {
 		return ""
 	}
 	return w.Fset.Position(f.Pos()).Filename
+}
+
+// pkgScopeConst returns the value of the package-level constant pkg.name, or nil.
+func (w *World) pkgScopeConst(pkg, name string) constant.Value {
+	tp := w.tpkg(pkg)
+	if tp == nil {
+		return nil
+	}
+	c, ok := tp.Scope().Lookup(name).(*types.Const)
+	if !ok {
+		return nil
+	}
+	return c.Val()
 }
